@@ -11,7 +11,7 @@ import gen, pipeline, model, impl, compare, shex_text, findings as F, oracle
 from props import base
 from shexer import consts as C
 
-PROPS_MODULES = ["ShexerModel.Props.C10"]
+PROPS_MODULES = ["ShexerModel.Props.C10", "ShexerModel.Props.GenStrUnprefix"]
 DEPS = []
 replay = base.replay
 SH_NS = "http://example.org/shapes/"
@@ -346,6 +346,8 @@ def run(ctx):
         cases = cls_cases + [(c[0], c[1]) for c in sm_cases]
     finally:
         shutil.rmtree(tmpdir, ignore_errors=True)
+    # targets and the instantiation property given as prefixed names are expanded by unprefixize_uri_if_possible (regenerated, Props/GenStrUnprefix)
+    base.fragment_s_tie(ctx, dis, stats, ['unprefixize_uri_if_possible', 'unprefixize_uri_mandatory'])
     return base.std_result(ctx, cases, viol, dis, base.known_lines(kf, reproduced), stats, nontriv, [],
                            "class targets: random subsets of classes in three spellings (full, <bracketed>, prefixed) x instantiation property "
                            "in {rdf:type, custom, P31-like}; shape maps: 1-3 items from a grammar of selectors (node full/prefixed, ghost node, "
